@@ -4645,6 +4645,12 @@ class WBEMConnection:  # pylint: disable=too-many-instance-attributes
         exc = None
         result_tuple = None
 
+        # Params can be any iterable, including a one-time iterator. It is
+        # used by the recorders and by the method call, so it is converted to
+        # a list once.
+        if Params is not None and not isinstance(Params, (list, tuple)):
+            Params = list(Params)
+
         if self._operation_recorders:
             self.operation_recorder_reset()
             self.operation_recorder_stage_pywbem_args(
